@@ -24,7 +24,7 @@ def ClassOK (c : ClassIR) : Prop :=
 /-- Every class of every accepted specification satisfies `ClassOK`. -/
 theorem classes_immutable (files : List ProtoFile) (out : GenOutput) (h : compile files = .ok out) :
     ∀ c ∈ out.classes, ClassOK c := by
-  sorry
+  exact compile_ok h
 
 /-- A `tuple(...)` initialiser stores an immutable tuple (or `None` for an absent optional array),
     never the caller's list: whatever is passed, the stored attribute is a tuple value or the call
@@ -33,7 +33,7 @@ theorem tupleOf_snapshots (name : String) (opt : Bool) (args attrs : List (Strin
     (res : List (String × Value))
     (h : runInit (.assign name (.tupleOf name opt) :: rest) args attrs = .ok res) :
     ∃ v, (name, v) ∈ res ∧ (v.isNone = true ∨ ∃ vs, v = .tuple vs) := by
-  sorry
+  exact runInit_tupleOf name opt args attrs rest res h
 
 /-- Serialization is a function of the (immutable) instance and the writer only: serializing the same
     instance twice from the same writer state yields identical bytes, for constructed and
